@@ -13,3 +13,7 @@ fn verif_vec_extend<T>(v: &mut Vec<T>, other: Vec<T>)
 // [A-std] Iterator::count on a Filter adapter: the number of items it would still yield
 pub assume_specification<I: Iterator, P: FnMut(&I::Item) -> bool>[ <core::iter::Filter<I, P> as Iterator>::count ](it: core::iter::Filter<I, P>) -> (r: usize)
     ensures it.obeys_prophetic_iter_laws() ==> r == it.remaining().len();
+
+// [A-std] Range<usize>::clone yields an equal range
+pub assume_specification<Idx: Clone>[ <core::ops::Range<Idx> as Clone>::clone ](r: &core::ops::Range<Idx>) -> (c: core::ops::Range<Idx>)
+    ensures (forall|a: Idx, b: Idx| call_ensures(Idx::clone, (&a,), b) ==> a == b) ==> c == *r;
